@@ -161,7 +161,7 @@ def check(ctx):
     ctx.explanation = EXPLANATION
     ctx.trusted = ["rustc's type checker, trait solver and borrow checker (they are the oracle)"]
     ctx.assumptions = ["programs outside the corpus are covered only by the universal rules C12.A/C/S/L"]
-    cfgs = ["F0", "F1"]
+    cfgs = ["F0", "F1", "F1N"]
     ctx.need(*cfgs)
     for cfg in cfgs:
         check_auto_impls(ctx, cfg)
